@@ -91,7 +91,11 @@ def run_c04(tier):
                 k += 1
                 vcase = dict(casej, value=v)
                 chk.count(('len', c.tree, v), spec_kind != 0)
-                if c.tree['k'] == 'struct':
+                if c.tree['k'] == 'struct' and any(m['padding'] is None for m in impl['members']):
+                    # prophyc left a layout attribute unknown for a type the wire rules size: a violation, not a crash of the check
+                    chk.property_violation(vcase, {'what': 'prophyc left the padding of a member unknown (None) for a type the layout rules size',
+                                                   'paddings': [m['padding'] for m in impl['members']], 'canonical': lens['total']})
+                elif c.tree['k'] == 'struct':
                     got = length_by_paddings(lens['lens'], [m['padding'] for m in impl['members']])
                     if got != lens['total']:
                         chk.property_violation(vcase, {'what': 'length implied by prophyc member paddings differs from the canonical encoding length',
